@@ -26,6 +26,9 @@ RULE += (
 RULE += (
     ' Round 9: a directed family writes one numeric keyword (multipleOf, minimum, maximum, exclusive bounds) as int and as float and judges the two equal elements on numbers between 2**49 and 2**64 of both signs, written as int and as float.'
 )
+RULE += (
+    ' Round 10: mutation reorder-map and the directed families map-in-another-order (dependencies / patternProperties with [] / Nothing() / trivial entries, written in both orders) and same-object-twice-vs-two-copies; schemas are compared with `required` and dependency name lists as sets.'
+)
 ASSUMPTIONS = [
     "alpha() inlines #/definitions refs and drops class-name-derived titles: equality ignores class names by design and a title is an annotation",
     "JSON comparison is type-faithful (true != 1, 1 == 1.0)",
@@ -69,7 +72,54 @@ def cases(draw):
             flat = R.repair_refs(flat, R.index(child))
             values = draw(values_for(R.to_schema(child), 5, 8))
             return {"mode": "inherit", "a": child, "b": flat, "dropped": drop, "values": values}
-    if draw(st.integers(0, 11)) == 0:
+    directed = draw(st.integers(0, 11))
+    if directed == 1:
+        # a composition holding the SAME element object twice vs the equal one holding two independently built copies
+        kind = draw(st.sampled_from(["OneOf", "OneOf", "AnyOf", "AllOf"]))
+        leaf = draw(st.sampled_from([{"kind": "Integer", "kw": {}}, {"kind": "String", "kw": {"minLength": 1}},
+                                     {"kind": "Element", "kw": {"minimum": 0}}, {"kind": "Array", "kw": {}},
+                                     {"kind": "Object", "name": "Leaf", "kw": {}, "props": [
+                                         {"name": "v", "source": None, "required": False,
+                                          "element": {"id": 5, "kind": "Integer", "kw": {}}}]}]))
+        third = [{"id": 4, "kind": "Null", "kw": {}}] if draw(st.booleans()) else []
+        a = {"id": 1, "kind": kind, "kw": {}, "elements": [dict(copy.deepcopy(leaf), id=2), {"ref": 2}] + third}
+        twin = dict(copy.deepcopy(leaf), id=3)
+        if twin["kind"] == "Object":
+            twin["props"][0]["element"]["id"] = 6
+        b = {"id": 1, "kind": kind, "kw": {}, "elements": [dict(copy.deepcopy(leaf), id=2), twin] + third}
+        values = [0, 1, -3, "a", "", [], [1], {}, {"v": 1}, {"v": "x"}, None, 1.5, True]
+        return {"mode": "mutant", "mutation": "same-object-twice-vs-two-copies:" + kind, "a": a, "b": b, "values": values,
+                "must_be_equal": True}
+    if directed == 2:
+        # one keyword -> value MAP written in two orders (maps are equal whatever their order), with degenerate entries
+        # among the values: nothing required alongside ([]), the schema nothing satisfies, the trivial schema
+        which = draw(st.sampled_from(["dependencies", "dependencies", "patternProperties"]))
+        if which == "dependencies":
+            keys = draw(st.lists(st.sampled_from(["a", "b", "c", "class"]), min_size=2, max_size=3, unique=True))
+            entries = {k: draw(st.sampled_from([[], [], ["c"], ["a", "d"], {"id": 0, "kind": "Nothing", "kw": {}},
+                                                {"id": 0, "kind": "Element", "kw": {}},
+                                                {"id": 0, "kind": "Element", "kw": {"minProperties": 2}}])) for k in keys}
+            names = ["a", "b", "c", "class", "d"]
+        else:
+            keys = draw(st.lists(st.sampled_from(["^a", "b", "", "c$"]), min_size=2, max_size=3, unique=True))
+            entries = {k: draw(st.sampled_from([{"id": 0, "kind": "Nothing", "kw": {}}, {"id": 0, "kind": "Element", "kw": {}},
+                                                {"id": 0, "kind": "Integer", "kw": {}}, {"id": 0, "kind": "String", "kw": {}}]))
+                       for k in keys}
+            names = ["a", "ab", "b", "c", "abc"]
+        for n, (k, v) in enumerate(entries.items()):
+            if isinstance(v, dict):
+                entries[k] = dict(v, id=10 + n)
+        kind = draw(st.sampled_from(["Element", "Object"]))
+        a = {"id": 1, "kind": kind, "kw": {}, "sub": {which: entries}}
+        b = {"id": 1, "kind": kind, "kw": {}, "sub": {which: dict(reversed(list(entries.items())))}}
+        if kind == "Object":
+            a["name"] = b["name"] = "Holder"
+            a["props"] = b["props"] = []
+        subsets = draw(st.lists(st.lists(st.sampled_from(names), max_size=4, unique=True), min_size=4, max_size=8))
+        values = [{n: draw(st.sampled_from([1, "s"])) for n in subset} for subset in subsets] + [{n: 1 for n in names[:3]}]
+        return {"mode": "mutant", "mutation": "map-in-another-order:" + which, "a": a, "b": b, "values": values,
+                "must_be_equal": True}
+    if directed == 0:
         # the same number written as an integer and as a float (2 == 2.0: the elements are equal), judged on numbers
         # around and beyond the precision of a float, of both signs, written as int and as float
         kind = draw(st.sampled_from(["Element", "Integer", "Number"]))
@@ -159,8 +209,11 @@ def alpha(doc):
                 continue
             if k in ("const", "enum", "default"):
                 out[k] = walk(v, depth + 1, True)
+            elif k == "required" and isinstance(v, list) and all(isinstance(x, str) for x in v):
+                out[k] = sorted(v)  # a set of names in JSON Schema: written in declaration order, which == ignores
             elif k in ("properties", "patternProperties", "dependencies"):
-                out[k] = {kk: walk(vv, depth + 1) for kk, vv in v.items()} if isinstance(v, dict) else v
+                out[k] = {kk: (sorted(vv) if isinstance(vv, list) and all(isinstance(x, str) for x in vv)
+                               else walk(vv, depth + 1)) for kk, vv in v.items()} if isinstance(v, dict) else v
             else:
                 out[k] = walk(v, depth + 1)
         return out
